@@ -83,7 +83,7 @@ def seeded_run(case, unit):
             sim.run_monte_carlo(iterations=1, start_time=TimeStamp(), stop_time=stop, time_step=step, time_unit=c17.U(unit), callback=cb,
                                 save_dir=d, save_iterations=[1], debug=True)
     hist = {name: {round(float(t) * float(c17.FACT[unit] / 3600), 9): v for t, v in ps.history[name].items()} for name in ("ENS", "SAIDI", "SAIFI")}
-    return {"fails": fails, "hist": hist, "ens": [float(b.acc_p_energy_shed) for b in ps.buses],
+    return {"fails": fails, "hist": hist, "ens": [float(b.acc_p_energy_shed) for b in ps.buses] + [float(x.SOC) for x in ps.batteries] + [float(e.acc_available_num_cars) for e in ps.ev_parks],
             "outage": [round(b.acc_outage_time.get_hours(), 9) for b in ps.buses], "nlog": len(ps.history["ENS"])}
 
 
@@ -122,7 +122,12 @@ def gen(rng, ne, ns):
         c["units"] = rng.sample([1, 2, 4, 5], 2)
         cases.append(c)
     for _ in range(ns):
-        spec = net.rand_feeder_spec(rng, max_lines=4, ctrl="manual", allow_tie=False, allow_mg=rng.random() < 0.3)
+        spec = net.rand_feeder_spec(rng, max_lines=4, ctrl="manual", allow_tie=False, allow_mg=rng.random() < 0.6)
+        if spec.get("mg"):                    # storage that is (re)initialised at the first step of an outage
+            spec["mg"]["mode"] = rng.choice(["full", "survival", "limited"])
+        if rng.random() < 0.5:                # an EV park (cars drawn at the first step of an outage)
+            fd = spec["feeders"][0]
+            fd["ev"] = {str(rng.randrange(len(fd["parent"]))): {"hours": list(range(24)), "table": [str(rng.choice([2, 3, 5, 8])) for _ in range(24)], "v2g": rng.random() < 0.7}}
         units = rng.sample([1, 2, 4], 2)
         # steps exactly representable as floats in every unit used (1/48 day is not: float drift of timers is outside the property)
         dt = rng.choice([F(3), F(6)]) if 4 in units else rng.choice([F(1), F(1, 2)])
